@@ -412,6 +412,10 @@ def evaluate(ctx, v, cases, impl, model):
         if ri.startswith("EXC") or ri.startswith("CRASH"):
             v.property_failure("impl-throws-or-crashes", "JSON code crashed, threw, hung or read out of bounds (%s)" % ri, line, ri)
             failed = True
+        elif ri.startswith("OUTSIDE-READ"):
+            v.property_failure("reads-outside-input", "the result of parsing depends on memory behind the end of the input "
+                               "(the parser reads outside the input): " + ri[:200], line, ri[:600])
+            failed = True
         elif k in ("text", "text-ref", "mut", "limit"):
             text = meta.get("text")
             if ri.startswith("ERR "):
